@@ -274,14 +274,17 @@ def Coll.manyInsert (E : Env) (c : Coll) (l : Loaded) : List Obj → Nat → Col
     | (c, .panic) => (c, l, n, some .other)
 
 /-- `DB.InsertOrUpdateMany(objects...)`; `wrong` = some object has another Go type -/
-def Coll.many (E : Env) (c : Coll) (os : List Obj) (wrongAt : Option Nat := none) : Coll × Nat × Res Unit :=
+def Coll.many (E : Env) (c : Coll) (os : List Obj) (wrongAt : Option (Nat × Bool) := none) : Coll × Nat × Res Unit :=
   if os.isEmpty then (c, 0, .ok ()) else
+  -- the schema is the one of the first object: unknown if that one is of the other type
+  if (wrongAt.map (·.1)) == some 0 then (c, 0, .err .notFound) else
   match c.schema with
   | (c, .ok l) =>
     let checked := match wrongAt with
       | none => manyValidate E l (ObjIndex.new l.descs) os
-      | some k => match manyValidate E l (ObjIndex.new l.descs) (os.take k) with
-                  | .ok _ => .err .wrongType
+      | some (k, identified) => match manyValidate E l (ObjIndex.new l.descs) (os.take k) with
+                  -- an unidentified object is initialised first, which needs its (unknown) schema
+                  | .ok _ => if identified then .err .wrongType else .err .notFound
                   | r => r
     match checked with
     | .err e => (c, 0, .err e)
